@@ -49,7 +49,7 @@ def content(draw):
 @st.composite
 def state(draw):
     return {"kind": draw(st.sampled_from(KINDS)), "content": draw(content()), "tname": draw(st.sampled_from(TNAMES)),
-            "mtime": [draw(st.sampled_from([1, 1000000000, 1700000000])), draw(st.sampled_from([0, 1, 999999999]))]}
+            "mtime": [draw(st.sampled_from([0, 1, 1000000000, 1700000000])), draw(st.sampled_from([0, 1, 999999999]))]}
 
 
 @st.composite
